@@ -217,3 +217,50 @@ func vpHC_C15_pop_close() {
 	vpAssert(err == ErrQueueClosed, "Pop on a closed queue returns ErrQueueClosed")
 	vpCover(true, "ran")
 }
+
+// two_pops_cancel: two Pops block on an empty queue (separate contexts); one context is cancelled: THAT Pop returns
+// whichever of the two registered first (the wake-up must reach every waiter, not just the oldest).
+func vpHC_C15_two_pops_cancel() {
+	q := newRpcQueue(1)
+	ctx2, cancel2 := context.WithCancel(context.Background())
+	var e2 error
+	t1 := vpGo(func() { q.Pop(context.Background()) }) // (no cancellation callback of its own: fewer scheduling points)
+	t2 := vpGo(func() { _, e2 = q.Pop(ctx2) })
+	vpWait() // both Pops are parked (in either registration order)
+	cancel2()
+	vpWait()
+	d2 := vpThreadDone(t2)
+	vpAssert(d2, "a cancelled Pop returns promptly also when another Pop waits on the same queue")
+	if d2 {
+		vpAssert(e2 == ErrQueueCancelled, "it reports the cancellation")
+	}
+	vpAssert(!vpThreadDone(t1), "the other Pop keeps waiting")
+	vpCover(d2, "cancelled pop returned")
+	if !vpSymbolic() {
+		q.Close()
+		vpWait()
+	}
+}
+
+// two_pops_two_pushes: two Pops block on an empty queue of capacity 2, two pushes arrive: both Pops return with one RPC each.
+func vpHC_C15_two_pops_two_pushes() {
+	q := newRpcQueue(2)
+	ctx := context.Background()
+	a, b := &RPC{}, &RPC{}
+	var g1, g2 *RPC
+	t1 := vpGo(func() { g1, _ = q.Pop(ctx) })
+	t2 := vpGo(func() { g2, _ = q.Pop(ctx) })
+	t3 := vpGo(func() { q.Push(a, false); q.Push(b, false) })
+	vpWait()
+	vpAssert(vpThreadDone(t3), "the pushes return")
+	both := vpThreadDone(t1) && vpThreadDone(t2)
+	vpAssert(both, "every queued RPC wakes a waiting Pop: two pushes release both blocked Pops")
+	if both {
+		vpAssert((g1 == a && g2 == b) || (g1 == b && g2 == a), "each Pop gets one of the two RPCs; nothing lost or duplicated")
+	}
+	vpCover(both, "both returned")
+	if !vpSymbolic() {
+		q.Close()
+		vpWait()
+	}
+}
